@@ -33,7 +33,7 @@ Definition step_fail (c : stepcase) : nat :=
   | Some (fgs, mol) =>
       if negb (keys_are_range mol) then 1%nat
       else if negb (sorted_by_fragid mol) then 2%nat
-      else if negb (blocks_contiguous (sc_meta c) mol) then 3%nat
+      else if negb (blocks_contiguous (sc_meta c) mol && blocks_by_coarse mol fgs) then 3%nat
       else if sc_aa c && negb (names_element_index mol fgs) then 4%nat
       else if sc_aa c && negb (names_unique mol fgs) then 5%nat
       else 0%nat
